@@ -466,6 +466,9 @@ func prepareCall(fr *frame, call *ssa.CallCommon) (fn value, args []value) {
 		// Interface method invocation.
 		recv := v.(iface)
 		if recv.t == nil {
+			if os.Getenv("VRF_DEBUG") != "" {
+				fmt.Fprintf(os.Stderr, "nil interface method %s in %s\n", call.Method.Name(), chainOf(fr, 6))
+			}
 			panic("method invoked on nil interface")
 		}
 		if f := lookupMethod(fr.i, recv.t, call.Method); f == nil {
